@@ -485,6 +485,17 @@ func init() {
 		}
 		// For on shared ForOptions: the override schemas must not be written
 		cc.RunForSharedFamily(r)
+		// Resolve on a shared Schema tree: no write into the tree (the real Resolve in the engine)
+		{
+			ds := ResolveOrderDocs()
+			ds, results := RunSkeletons(cc.P, ds, cc.Workers, cc.Timeout, func(w *Worker, sk *Skeleton) *SkelResult {
+				return w.RunResolveOrders(sk, "C13")
+			})
+			for i, s := range results {
+				r.AddSkel(ds[i], s)
+			}
+			r.Bounds = append(r.Bounds, "Resolve on a shared Schema tree: the F-resorder documents are imported as shared pre-state and the real Resolve runs in the engine (all map orders); any store, append or map update into the caller's tree is a violation, confirmed by a native deep before/after comparison")
+		}
 		// process-wide caches: complete before publication, never written afterwards
 		{
 			sk := []*Skeleton{{Name: "F-cache/jsonNames", Family: "F-cache"}}
@@ -496,7 +507,7 @@ func init() {
 		}
 		r.Explanation = "Schedules are not enumerated (the engine has no model of Go's concurrency). What is decided, by symbolic execution of the real SSA over all instances within the template bounds, is a sufficient condition that makes schedules irrelevant: on every path of Validate (and of ApplyDefaults, except for the caller's own instance) no Store / map update / reflect Set targets memory that existed before the call (the imported Resolved, Schema tree, side tables, package-level variables after initialisation) unless it goes through a sync.Map. Calls that write only call-local memory cannot race with each other and behave as in isolation. A violation is confirmed natively by a deep before/after comparison or by running concurrent calls under the race detector."
 		r.Bounds = append(r.Bounds, boundsValidate...)
-		r.Outside = append(r.Outside, "Marshal, CloneSchemas and Resolve on shared inputs, and For beyond its TypeSchemas overrides (their write footprints are not explored); the Go memory model itself; library internals behind intrinsics (regexp, fmt, maphash are documented safe for concurrent use)")
+		r.Outside = append(r.Outside, "Marshal and CloneSchemas on shared inputs, Resolve beyond the F-resorder documents, and For beyond its TypeSchemas overrides (their write footprints are not explored); the Go memory model itself; library internals behind intrinsics (regexp, fmt, maphash are documented safe for concurrent use)")
 		r.Extra["paths_with_shared_writes"] = len(r.SharedWrites)
 	}
 	Checks["C14"] = func(cc *CheckCtx, r *Report) {
@@ -638,6 +649,8 @@ func init() {
 		// (d) Resolve on reference topologies incl. failing loaders (native scaffold: must return, not panic)
 		rf := FamilyRef(cc.Thorough(), cc.Seed)
 		cc.RunValidateFamily(r, rf, VOptions{})
+		// (f) Resolve on Schema graphs that are not trees, malformed URIs, conflicting fields, hostile loaders
+		RunGraphScaffold(r, "C10")
 		// (e) For/ForType on the declared type family, recursive types and unsupported kinds at any
 		// depth, with every option combination of the scaffold: must return (native scaffold)
 		{
@@ -651,7 +664,7 @@ func init() {
 		}
 		r.Bounds = append(r.Bounds, boundsValidate...)
 		r.Bounds = append(r.Bounds, "json.Number instances include the state \"text that math/big cannot parse\" (realised as 1e9999999), for which only panics are judged; every feasible path that ends in a Go panic (explicit panic, assert, run-time error, reflect-model panic) or exhausts the step/depth budget is a violation candidate, replayed natively under recover; Schema numeric fields range over the float model plus +Inf/-Inf/NaN and the full int range")
-		r.Outside = append(r.Outside, "Unmarshal on arbitrary bytes (inside encoding/json); For/ForType beyond the declared type family of the scaffold (types are declared programs; see C16); Schema graphs with shared or cyclic pointers (checkStructure is exercised natively by C20's scaffold only)")
+		r.Outside = append(r.Outside, "Unmarshal on arbitrary bytes (inside encoding/json); For/ForType beyond the declared type family of the scaffold (types are declared programs; see C16); Schema graphs and loader behaviours beyond the enumerated native cases (F-graph)")
 	}
 }
 
